@@ -303,6 +303,15 @@ theorem C10_exp_fresh_agent (c : ECfg) (cap : Nat) (ops : List EOp) (a : Aid) :
     simp [espec, List.foldl_append, especStep, hm', hr', upd]
   · rw [getPos_of_idx h'.inv hidx, hstep, h.inv.len]; rfl
 
+/-- Experimental, every history: every agent of the space has a row — reading its position never raises, whether or not it has
+    been assigned one (the bookkeeping of `C10_exp_positions_all_histories` says what it reads only once it was assigned). -/
+theorem C10_exp_every_agent_has_a_row (c : ECfg) (cap : Nat) (ops : List EOp) (a : Aid) :
+    a ∈ (erun c cap ops).active → ∃ q, agentGet (erun c cap ops) a = .ok q ∧ getPos (erun c cap ops) a = .ok q := by
+  intro ha
+  have h := (erun_refines c cap ops).inv
+  obtain ⟨i, hi⟩ := (h.mem_iff a).mp ha
+  exact ⟨_, by rw [agentGet_of_mem h ha]; exact getPos_of_idx h hi, getPos_of_idx h hi⟩
+
 /-- Legacy, every pair of histories: if `a` is placed at (or, being in the space, moved to) `p`, the assignment rule stores
     `p'` for `p`, and no later call places, moves or removes `a` — whatever is done to other agents and whenever the cache is
     built, patched or dropped — then `a` is in the space and its `pos` is `p'`. -/
